@@ -107,9 +107,10 @@ fn cfgs() -> Vec<(&'static str, bool, u32, u32)> {
 pub const LAYW: usize = 97;
 /// the same codes as a LAYW-wide multi-row 4:4:4 frame whose three planes have different paddings (hence different strides
 /// and origins); the tail of the last row is filled with mid-grey
-pub fn yuv444_rows<T: Pixel>(codes: &[[u32; 3]], cfg: YuvConfig) -> Yuv<T> {
+pub fn yuv444_rows<T: Pixel>(codes: &[[u32; 3]], cfg: YuvConfig, equal: bool) -> Yuv<T> {
     let w = LAYW; let h = (codes.len() + w - 1) / w; let mid = 1u32 << (cfg.bit_depth - 1);
-    let pads = [(0usize, 0usize), (16, 3), (40, 1)];
+    // `equal`: the three planes share one (padded) layout, stride != width; otherwise each plane has its own
+    let pads = if equal { [(0usize, 0usize); 3] } else { [(0usize, 0usize), (16, 3), (40, 1)] };
     let mk = |pi: usize| { let mut p: Plane<T> = Plane::new(w, h, 0, 0, pads[pi].0, pads[pi].1);
         for s in p.data.iter_mut() { *s = T::cast_from(77u16); }
         let stride = p.cfg.stride; let o = p.data_origin_mut();
@@ -121,8 +122,8 @@ pub fn codes_of_rows<T: Pixel>(y: &Yuv<T>, n: usize) -> Vec<[u32; 3]> {
     (0..n).map(|i| { let g = |pi: usize| { let p = &y.data()[pi]; u16::cast_from(p.data_origin()[(i / w) * p.cfg.stride + i % w]) as u32 }; [g(0), g(1), g(2)] }).collect()
 }
 
-fn with_yuv<R>(ts: u32, rows: bool, codes: &[[u32; 3]], cfg: YuvConfig, f8: impl FnOnce(&Yuv<u8>) -> R, f16: impl FnOnce(&Yuv<u16>) -> R) -> R {
-    if rows { if ts == 1 { f8(&yuv444_rows::<u8>(codes, cfg)) } else { f16(&yuv444_rows::<u16>(codes, cfg)) } }
+fn with_yuv<R>(ts: u32, rows: u8, codes: &[[u32; 3]], cfg: YuvConfig, f8: impl FnOnce(&Yuv<u8>) -> R, f16: impl FnOnce(&Yuv<u16>) -> R) -> R {
+    if rows > 0 { if ts == 1 { f8(&yuv444_rows::<u8>(codes, cfg, rows == 2)) } else { f16(&yuv444_rows::<u16>(codes, cfg, rows == 2)) } }
     else if ts == 1 { f8(&yuv444::<u8>(codes, cfg)) } else { f16(&yuv444::<u16>(codes, cfg)) }
 }
 
@@ -148,34 +149,36 @@ pub fn c01_c08_c16(prop: &str, seed: u64, budget: usize) -> Report {
         for (chi, chunk) in codes.chunks(1 << 16).enumerate() {
             // every other chunk is laid out as a multi-row frame with per-plane paddings (the properties are per pixel, so the
             // layout must not matter)
-            let rows = chi % 2 == 1 || codes.len() <= 1 << 16 && ci % 2 == 1;
+            // (0: one row; 1: multi-row, a different padding per plane; 2: multi-row, one shared padded layout)
+            let rows: u8 = ((chi + ci) % 3) as u8;
             let mut rgb: Vec<[f32; 3]> = with_yuv(ts, rows, chunk, cfg, |y| Rgb::try_from(y).unwrap().into_data(), |y| Rgb::try_from(y).unwrap().into_data());
-            let (rw, rh) = if rows { (LAYW, rgb.len() / LAYW) } else { (chunk.len(), 1) };
+            let lay = |i: usize| if rows > 0 { format!(" L{} {}", rows, i) } else { String::new() };
+            let (rw, rh) = if rows > 0 { (LAYW, rgb.len() / LAYW) } else { (chunk.len(), 1) };
             let rgb_full = rgb.clone(); rgb.truncate(chunk.len());
             rep.evaluated += chunk.len() as u64;
             if prop == "C01" {
-                for (c, o) in chunk.iter().zip(rgb.iter()) {
+                for (pi_, (c, o)) in chunk.iter().zip(rgb.iter()).enumerate() {
                     let e = ref_decode(m, norm(c[0] as f64, bd, full, false), norm(c[1] as f64, bd, full, true), norm(c[2] as f64, bd, full, true));
                     for k in 0..3 { let d = (o[k] as f64 - e[k]).abs(); rep.note("decode abs err", d, 3e-6);
-                        if !(d <= 3e-6) { rep.fail("decoded component differs from H.273", format!("dec {} {} {} {} {} {} {} {}", ts, m, pn.0, full as u8, bd, c[0], c[1], c[2]), format!("{:?}", o), format!("{:?}", e)); } }
+                        if !(d <= 3e-6) { rep.fail("decoded component differs from H.273", format!("dec {} {} {} {} {} {} {} {}{}", ts, m, pn.0, full as u8, bd, c[0], c[1], c[2], lay(pi_)), format!("{:?}", o), format!("{:?}", e)); } }
                 }
             } else if prop == "C08" {
                 let rgbimg = Rgb::new(rgb_full, rw, rh, TransferCharacteristic::BT1886, pn.1).unwrap();
                 let back: Vec<[u32; 3]> = if ts == 1 { codes_of_rows(&Yuv::<u8>::try_from((&rgbimg, cfg)).unwrap(), chunk.len()) } else { codes_of_rows(&Yuv::<u16>::try_from((&rgbimg, cfg)).unwrap(), chunk.len()) };
                 let k = 1u32 << (bd - 8);
-                for (c, b) in chunk.iter().zip(back.iter()) {
+                for (pi_, (c, b)) in chunk.iter().zip(back.iter()).enumerate() {
                     let exp = if full { *c } else { [c[0].clamp(16 * k, 235 * k), c[1].clamp(16 * k, 240 * k), c[2].clamp(16 * k, 240 * k)] };
                     let okc = |i: usize| b[i] == exp[i] || (full && i > 0 && c[i] == 0 && b[i] == 1);
-                    if !(okc(0) && okc(1) && okc(2)) { rep.fail("YUV->RGB->YUV round trip is not lossless", format!("rt {} {} {} {} {} {} {} {}", ts, m, pn.0, full as u8, bd, c[0], c[1], c[2]), format!("{:?}", b), format!("{:?}", exp)); }
+                    if !(okc(0) && okc(1) && okc(2)) { rep.fail("YUV->RGB->YUV round trip is not lossless", format!("rt {} {} {} {} {} {} {} {}{}", ts, m, pn.0, full as u8, bd, c[0], c[1], c[2], lay(pi_)), format!("{:?}", b), format!("{:?}", exp)); }
                 }
             } else {
                 let k = 1u32 << (bd - 8);
-                for (c, o) in chunk.iter().zip(rgb.iter()) {
+                for (pi_, (c, o)) in chunk.iter().zip(rgb.iter()).enumerate() {
                     let sp = (o[0].max(o[1]).max(o[2]) - o[0].min(o[1]).min(o[2])) as f64; rep.note("grey spread", sp, 5e-7);
-                    if !(sp <= 5e-7) { rep.fail("neutral chroma does not decode to R=G=B", format!("dec {} {} {} {} {} {} {} {}", ts, m, pn.0, full as u8, bd, c[0], c[1], c[2]), format!("{:?}", o), "spread<=5e-7".into()); }
+                    if !(sp <= 5e-7) { rep.fail("neutral chroma does not decode to R=G=B", format!("dec {} {} {} {} {} {} {} {}{}", ts, m, pn.0, full as u8, bd, c[0], c[1], c[2], lay(pi_)), format!("{:?}", o), "spread<=5e-7".into()); }
                     let black = if full { 0 } else { 16 * k }; let white = if full { max } else { 235 * k };
-                    if c[0] == black && !(o[0] == 0.0 && o[1] == 0.0 && o[2] == 0.0) { rep.fail("nominal black is not exactly 0", format!("dec {} {} {} {} {} {} {} {}", ts, m, pn.0, full as u8, bd, c[0], c[1], c[2]), format!("{:?}", o), "0".into()); }
-                    if c[0] == white { for v in o { let d = (*v as f64 - 1.0).abs(); rep.note("white err", d, 1e-6); if !(d <= 1e-6) { rep.fail("nominal white is not 1 within 1e-6", format!("dec {} {} {} {} {} {} {} {}", ts, m, pn.0, full as u8, bd, c[0], c[1], c[2]), format!("{:?}", o), "1".into()); } } }
+                    if c[0] == black && !(o[0] == 0.0 && o[1] == 0.0 && o[2] == 0.0) { rep.fail("nominal black is not exactly 0", format!("dec {} {} {} {} {} {} {} {}{}", ts, m, pn.0, full as u8, bd, c[0], c[1], c[2], lay(pi_)), format!("{:?}", o), "0".into()); }
+                    if c[0] == white { for v in o { let d = (*v as f64 - 1.0).abs(); rep.note("white err", d, 1e-6); if !(d <= 1e-6) { rep.fail("nominal white is not 1 within 1e-6", format!("dec {} {} {} {} {} {} {} {}{}", ts, m, pn.0, full as u8, bd, c[0], c[1], c[2], lay(pi_)), format!("{:?}", o), "1".into()); } } }
                 }
             }
         }
